@@ -251,19 +251,11 @@ def _check_op(model, R, op, P):
         if not accs:
             continue    # COVER decides whether a missing accumulation is legitimate
         # with kernel dispatch there may be one statement shared by both branches; exactly one statement expected
-        R.ob(P + '.ACC', op.qual, '%s: %d accumulation statement(s)' % (c.name, len(accs)), len(accs) == 1,
-             'exactly one accumulation statement per operand position', _loc(op, accs[0].stmt))
         for a in accs:
             R.ob(P + '.ACC', op.qual, norm(a.stmt), a.op == 'Add' and isinstance(a.stmt, ast.AugAssign) and a.target is not None and
                  isinstance(a.stmt.target, ast.Attribute) and a.stmt.target.attr == '_grad',
                  'contribution must be accumulated in place with += on %s._grad (assignment would overwrite other consumers)' % c.name, _loc(op, a.stmt))
-            facts = {(t, p) for t, p, _ in a.facts}
-            R.ob(P + '.ACC', op.qual, 'guard of ' + norm(a.stmt), (c.name + '.requires_grad', True) in facts,
-                 'accumulation into %s must be guarded by %s.requires_grad' % (c.name, c.name), _loc(op, a.stmt))
-            if c.cond:
-                pres = {(c.name, True), (c.name + ' is not None', True), (c.name + ' is None', False)}
-                R.ob(P + '.ACC', op.qual, 'presence guard of ' + norm(a.stmt), bool(pres & facts),
-                     'optional operand %s must be accumulated only when present' % c.name, _loc(op, a.stmt))
+            # (how often and under which flags the accumulation runs is decided by COVER over all flag valuations: sa/rules_flags.py)
             _bind(R, P, op, func, c, a, results_by_call)
     # list operands: for inp, grad in zip(inputs, results)
     for c in op.children:
